@@ -270,16 +270,16 @@ func Run(st Store, h History) (*Violation, Stats, error) {
 					}
 					f := &simfs.Fault{Kind: kind}
 					if kind == simfs.KErr {
-						f.Errno = int(simfs.ErrnosFor(ev.Op)[0])
+						f.Errno = int(simfs.ErrnoAt(ev.Op, ev.Seq))
 					}
 					if (kind == simfs.KShort || kind == simfs.KEnospcFrom) && ev.Op != "write" && ev.Op != "openExcl" && ev.Op != "create" {
 						f.Kind = simfs.KErr
-						f.Errno = int(simfs.ErrnosFor(ev.Op)[0])
+						f.Errno = int(simfs.ErrnoAt(ev.Op, ev.Seq))
 					}
 					if kind == simfs.KPanic && ev.Op != "write" && ev.Op != "pwrite" {
 						// panics model failures of pdfcpu's own processing code: only at data events (see C01)
 						f.Kind = simfs.KErr
-						f.Errno = int(simfs.ErrnosFor(ev.Op)[0])
+						f.Errno = int(simfs.ErrnoAt(ev.Op, ev.Seq))
 					}
 					return f
 				}
